@@ -390,6 +390,8 @@ pub fn build_c17(quick: bool) -> Vec<Scenario> {
         v.push(Scenario::new(p, "unix_backpressure", format!("unix.backpressure.CC.len12000.w{}", w), Arc::new(move |e| unix_stream(e, w, 'C', 'C', 12_000, 0, 4096, true, 1))));
         v.push(Scenario::new(p, "unix_stream", format!("unix.2conn.CC.len5.w{}", w), Arc::new(move |e| unix_stream(e, w, 'C', 'C', 5, 0, 4, false, 2))));
         v.push(Scenario::new(p, "tcp", format!("tcp.CC.len7.buf3.w{}", w), Arc::new(move |e| tcp_loopback(e, w, 7, 0, 3, false))));
+        // plain threads wait in std::thread::park, which may return spuriously
+        v.push(Scenario::new(p, "thread_io_spurious_park", format!("unix.CT.len5.chunk1.buf64.spurious_park.w{}", w), Arc::new(move |e| unix_stream(e, w, 'C', 'T', 5, 1, 64, false, 1))).spurious());
         v.push(Scenario::new(p, "tcp", format!("tcp.thread_client.len7.chunk2.w{}", w), Arc::new(move |e| tcp_loopback(e, w, 7, 2, 64, true))));
         v.push(Scenario::new(p, "datagram", format!("unixdgram.sizes0_1_100.w{}", w), Arc::new(move |e| datagrams(e, w, false, &[0, 1, 100], false))));
         v.push(Scenario::new(p, "datagram", format!("udp.sizes1_0_100.w{}", w), Arc::new(move |e| datagrams(e, w, true, &[1, 0, 100], false))));
@@ -399,7 +401,19 @@ pub fn build_c17(quick: bool) -> Vec<Scenario> {
         v.push(Scenario::new(p, "unix_backpressure", "unix.backpressure.CT.len12000.w2", Arc::new(move |e| unix_stream(e, 2, 'C', 'T', 12_000, 5000, 1024, true, 1))));
         v.push(Scenario::new(p, "tcp", "tcp.CC.len64.chunk7.buf5.w2", Arc::new(move |e| tcp_loopback(e, 2, 64, 7, 5, false))));
     }
-    v.into_iter().map(|s| s.tier(quick).horizon(12_000)).collect()
+    v.into_iter()
+        .map(|s| {
+            // the spurious wake-up is one deviation, the window it has to hit a second one
+            let deep = s.name.ends_with("spurious_park.w1");
+            let s = s.tier(quick);
+            if deep && s.bound < 2 {
+                s.bound(2)
+            } else {
+                s
+            }
+        })
+        .map(|s| s.horizon(12_000))
+        .collect()
 }
 
 pub fn build_c18(quick: bool) -> Vec<Scenario> {
